@@ -181,6 +181,24 @@ fn c07_long_name(which: &str) -> (bool, String) {
     }
 }
 
+// ---------------- C04: Mutation similarity on distinct terms without any annotation ----------------
+fn c04_mutation_unannotated(kind: &str) -> (bool, String) {
+    use hpo::similarity::{Builtins, Similarity};
+    use hpo::term::InformationContentKind;
+    let mut b = Builder::new();
+    b.new_term("All", 1u32);
+    b.new_term("x", 2u32);
+    b.new_term("y", 3u32);
+    let mut b = b.terms_complete();
+    b.add_parent(1u32, 2u32).unwrap();
+    b.add_parent(1u32, 3u32).unwrap();
+    let ont = b.connect_all_terms().calculate_information_content().unwrap().build_minimal();
+    let k = match kind { "gene" => InformationContentKind::Gene, "omim" => InformationContentKind::Omim, _ => InformationContentKind::Orpha };
+    let s = Builtins::Mutation(k).calculate(&ont.hpo(2u32).unwrap(), &ont.hpo(3u32).unwrap());
+    let bad = !(s == 0.0);
+    (bad, format!("Mutation({kind}) of two distinct terms without annotations = {s} (specified: 0, never NaN)"))
+}
+
 fn main() {
     let a: Vec<String> = std::env::args().collect();
     let kind = a.get(1).map(String::as_str).unwrap_or("");
@@ -198,6 +216,7 @@ fn main() {
         }
         k if k.starts_with("c15:") => c15_history(&k[4..]),
         k if k.starts_with("c07:long_name_") => c07_long_name(&k[14..]),
+        k if k.starts_with("c04:mutation_unannotated_") => c04_mutation_unannotated(&k[25..]),
         _ => (false, format!("unknown replay kind {kind}")),
     };
     if bad {
